@@ -3,6 +3,7 @@
 package encoder
 
 import (
+	"encoding"
 	"encoding/json"
 	"math"
 	"reflect"
@@ -185,4 +186,76 @@ func VerifC07EncoderStack() {
 func verifSetSP(s *vars.Stack, k int) {
 	// Stack.sp is the first word of the struct (byte offset of the top)
 	*(*uintptr)(unsafe.Pointer(s)) = uintptr(k) * uintptr(vars.StateSize)
+}
+
+// VerifC12VMMarshalerFlags: the interpreter hands the caller's whole option word to the
+// marshaler primitives (as the JIT does with its flags argument), for the pointer-receiver
+// opcodes OP_marshal_p / OP_marshal_text_p: options such as NoQuoteTextMarshaler,
+// NoValidateJSONMarshaler or CompactMarshaler must reach them unchanged, whatever the
+// interpreter's private per-frame state is.
+type verifTM struct{ N int }
+
+func (t *verifTM) MarshalText() ([]byte, error) { return []byte{'T', byte('0' + t.N)}, nil }
+
+type verifJM struct{ N int }
+
+func (t *verifJM) MarshalJSON() ([]byte, error) { return []byte{' ', byte('0' + t.N)}, nil }
+
+// native side: pointer-receiver marshalers in addressable positions, both back ends, every
+// marshaler-related option combination
+func verifVMMarshalNativeOracle() {
+	type both struct {
+		T []verifTM
+		J []verifJM
+	}
+	val := &both{T: []verifTM{{5}, {6}}, J: []verifJM{{1}}}
+	for _, o := range []Options{0, NoQuoteTextMarshaler, CompactMarshaler, NoValidateJSONMarshaler, NoQuoteTextMarshaler | CompactMarshaler} {
+		ForceUseJit()
+		a, e1 := Encode(val, o)
+		ForceUseVM()
+		b, e2 := Encode(val, o)
+		ForceUseJit()
+		v.Assert((e1 == nil) == (e2 == nil), "JIT and VM encoders disagree on failing for pointer-receiver marshalers")
+		v.Assert(string(a) == string(b), "JIT and VM encoders produce different text for pointer-receiver marshalers under option word "+string(rune('0'+int(o%10))))
+	}
+}
+
+func VerifC12VMMarshalerFlags() {
+	if !v.Symbolic() {
+		verifVMMarshalNativeOracle()
+		return
+	}
+	var seenJSON, seenText uint64
+	nj, nt := 0, 0
+	v.Stub("github.com/bytedance/sonic/internal/encoder/prim.EncodeJsonMarshaler", func(buf *[]byte, val json.Marshaler, opt uint64) error {
+		seenJSON = opt
+		nj++
+		*buf = append(*buf, 'J')
+		return nil
+	})
+	v.Stub("github.com/bytedance/sonic/internal/encoder/prim.EncodeTextMarshaler", func(buf *[]byte, val encoding.TextMarshaler, opt uint64) error {
+		seenText = opt
+		nt++
+		*buf = append(*buf, 'T')
+		return nil
+	})
+	flags := v.Uint64("flags")
+	t := reflect.TypeOf(verifLeaf{})
+	itab := new(rt.GoItab)
+	var p ir.Program
+	// some frame state first (a first-element marker), then the two opcodes
+	p.Int(ir.OP_byte, '[')
+	p.Vtab(ir.OP_marshal_p, t, itab)
+	p.Int(ir.OP_byte, ',')
+	p.Vtab(ir.OP_marshal_text_p, t, itab)
+	p.Int(ir.OP_byte, ']')
+	leaf := verifLeaf{1}
+	buf := make([]byte, 0, 16)
+	err := vm.Execute(&buf, unsafe.Pointer(&leaf), &vars.Stack{}, flags, &p)
+	v.Assert(err == nil, "vm.Execute failed")
+	v.Assert(string(buf) == "[J,T]", "interpreter output order is wrong")
+	v.Assert(nj == 1 && nt == 1, "marshaler primitives not called exactly once each")
+	v.Assert(seenJSON == flags, "OP_marshal_p does not pass the caller's option word to the JSON marshaler primitive")
+	v.Assert(seenText == flags, "OP_marshal_text_p does not pass the caller's option word to the text marshaler primitive (NoQuoteTextMarshaler etc. are lost)")
+	v.Cover("end")
 }
